@@ -165,7 +165,7 @@ PROPS = {
         "exhaustive_thorough": False,
         "assumptions": [
             "expected instants are computed with time.Unix arithmetic from the specification's definitions",
-            "write direction: floor or truncation to the unit are both accepted; times within one millisecond of the int64-nanosecond limits are left out",
+            "write direction: the stored integer must be the time truncated to the unit (rounded down, also before 1970: the unique integer of the property text); times within one millisecond of the int64-nanosecond limits are left out",
             "the date type's 2^32 day counts are enumerated completely only in the thorough tier",
         ],
         "units": [
@@ -224,7 +224,7 @@ PROPS = {
         "level": "exploration",
         "assumptions": [
             "domain: unions of null with one other type (the general multi-branch union codec has no writer by design), targets whose nullability is aligned with the schema (pointers only under unions or to slices/maps), every schema field covered",
-            "timestamps: floor or truncation to the unit are both accepted; the zero time.Time may be written as null",
+            "timestamps must be stored rounded down to the unit (time.Time.Truncate); the zero time.Time may be written as null",
         ],
         "units": [
             regress("C13"),
